@@ -270,6 +270,30 @@ class Violation(Exception):
     pass
 
 
+class WorkerError(RuntimeError):
+    """a pool worker raised; carries the formatted traceback (always picklable, unlike e.g. abnf's ParseError)"""
+
+
+def _safe_call(job):
+    fn, args = job
+    try:
+        return ("ok", fn(args))
+    except BaseException as e:  # noqa
+        import traceback
+        return ("err", "".join(traceback.format_exception(type(e), e, e.__traceback__))[-3000:])
+
+
+def safe_map(pool, fn, jobs):
+    """pool.map that cannot hang on an exception which does not survive pickling: a worker's exception comes back as text
+    and is raised here as WorkerError"""
+    out = []
+    for status, val in pool.map(_safe_call, [(fn, a) for a in jobs]):
+        if status == "err":
+            raise WorkerError(val)
+        out.append(val)
+    return out
+
+
 class Ctx:
     """Per-run context of one check."""
 
